@@ -182,8 +182,15 @@ Record copts := mkO {
   o_pinned : list (string * req);      (* options.pinned_requirements (empty = falsy) *)
   o_allow_circular : bool;
   o_only_binary_all : bool;            (* --only-binary :all: *)
-  o_only_binary : list string          (* normalised project names marked binary-only *)
+  o_only_binary : list string;         (* normalised project names marked binary-only *)
+  o_extras : list string               (* options.extras: extras applied automatically to source-tree projects *)
 }.
+
+(* a SourceRepository layer: every candidate's metadata has a SourceRepository as origin *)
+Definition mark_source (u : universe) : universe :=
+  map (fun kc => (fst kc, map (fun c => mkCand (cname c)
+                                          (mkDist (dname (cdist c)) (dversion (cdist c)) (dvtext (cdist c)) (dreqs (cdist c)) (dmeta (cdist c)) true)
+                                          (creadable c) (csdist c)) (snd kc))) u.
 
 Definition GFUEL : nat := 400.
 
@@ -336,6 +343,14 @@ Fixpoint compile_roots (fuel : nat) (e : env) (u : repo_stack) (o : copts) (g : 
                      | None => Rok None
                      | Some s => sn <- getn g s ;;
                                  Rok (match alookup id (ndeps sn) with Some r => r | None => None end)
+                     end) (fun reason0 =>
+              (* compile-wide extras: merged into the edge reason when the distribution just acquired comes from a source tree *)
+              liftA (match reason0, o_extras o with
+                     | Some r, _ :: _ =>
+                         if dsource md then
+                           m <- lift_merge (merge (Some r) (Some (mkReq (safe_name (rname r)) (o_extras o) [] None))) ;; Rok (Some m)
+                         else Rok reason0
+                     | _, _ => Rok reason0
                      end) (fun reason =>
               liftA (add_dist GFUEL e g (dname md) (Some md) source reason) (fun '(g1, nodes) =>
               fold_left
@@ -344,7 +359,7 @@ Fixpoint compile_roots (fuel : nat) (e : env) (u : repo_stack) (o : copts) (g : 
                    | SOk ga => compile_roots f e u o ga rn source (S depth) maxdg path
                    | other => other
                    end)
-                (sort_nodes g1 nodes) (SOk g1)))
+                (sort_nodes g1 nodes) (SOk g1))))
           end)) in
         match attempt with
         | SOk g' => SOk g'
@@ -368,7 +383,7 @@ Fixpoint compile_roots (fuel : nat) (e : env) (u : repo_stack) (o : copts) (g : 
                         let g' := log_event g' ("walk-back at " ++ nkey n' ++ " blames " ++ bname)%string in
                         let bver := match dversion bm with Some v => v | None => mkV 0 [0%N] None None None [] end in
                         let bd := mkDist bname (Some (mkV 0 [0%N; 0%N; 0%N] None None None [])) "0.0.0"
-                                         [mkReq (dname bm) [] [mkC ONe bver false] None] true in
+                                         [mkReq (dname bm) [] [mkC ONe bver false] None] true false in
                         lift (remove_dists GFUEL g' bad false) (fun g1 =>
                         let g1 := set_complete g1 bad false in
                         lift (remove_dists GFUEL g1 id false) (fun g2 =>
@@ -430,9 +445,9 @@ Inductive cres :=
 | CNoCand (g : graph) (name : string) (spec : list clause)
 | CFatal (e : err).
 
-Definition perform_compile_stack_ob (fuel : nat) (e : env) (u : repo_stack) (inputs : list dist)
+Definition perform_compile_stack_x (fuel : nat) (e : env) (u : repo_stack) (inputs : list dist)
            (constraints : option (list dist)) (remove_constraints : bool)
-           (maxdg : option nat) (ob_all : bool) (ob : list string) : cres :=
+           (maxdg : option nat) (ob_all : bool) (ob : list string) (extras : list string) : cres :=
   match (match constraints with Some cs => collect_pins cs true [] | None => Rok (true, []) end) with
   | Rer er => CFatal er
   | Rok (all_pinned, pins) =>
@@ -446,7 +461,7 @@ Definition perform_compile_stack_ob (fuel : nat) (e : env) (u : repo_stack) (inp
     | Rok (g1, roots) =>
       let nodes := fold_left (fun a x => nadd x a) roots cnodes in
       let has_cons := match constraints with Some (_ :: _) => true | _ => false end in
-      let o := mkO (if all_pinned && has_cons then pins else []) true ob_all ob in
+      let o := mkO (if all_pinned && has_cons then pins else []) true ob_all ob extras in
       let md := match maxdg with Some m => m | None => max_downgrade end in
       let run :=
         fold_left
@@ -470,6 +485,12 @@ Definition perform_compile_stack_ob (fuel : nat) (e : env) (u : repo_stack) (inp
     end
   end
   end.
+
+(* extras=None (what every caller but `--extra` uses) *)
+Definition perform_compile_stack_ob (fuel : nat) (e : env) (u : repo_stack) (inputs : list dist)
+           (constraints : option (list dist)) (remove_constraints : bool)
+           (maxdg : option nat) (ob_all : bool) (ob : list string) : cres :=
+  perform_compile_stack_x fuel e u inputs constraints remove_constraints maxdg ob_all ob [].
 
 Definition perform_compile_stack (fuel : nat) (e : env) (u : repo_stack) (inputs : list dist)
            (constraints : option (list dist)) (remove_constraints : bool)
